@@ -7,3 +7,5 @@ export VERIF_ROOT="$(pwd)"
 cargo build --release --workspace 2>&1 | tail -3
 # E-GEN: build dust_dds once into the shared target dir used for generated crates
 ./target/release/gen SETUP quick 2>&1 | tail -2 || true
+# E-FUZZ: build the libFuzzer targets (nightly toolchain, offline)
+(cd fuzz && cp -n /repo/Cargo.lock Cargo.lock; cargo +nightly fuzz build -O -s none --target-dir /verif/target-fuzz 2>&1 | tail -3) || true
